@@ -111,7 +111,8 @@ def _inject(dao, fail_at):
     return real_connect
 
 
-def _one(ops, fail_at, pub_failures):
+def _one(ops, fail_at, pub_failures, quiet=False):
+    """quiet: nothing new is queued between the last failed public write and the retry (an idle workflow)"""
     tmp = tempfile.mkdtemp(prefix='verif_c21_', dir='/var/tmp')
     problems = []
     try:
@@ -144,7 +145,8 @@ def _one(ops, fail_at, pub_failures):
             except sqlite3.Error:
                 problems.append('a failed public write raised')
             del mgr.pub_dao.connect           # back to the class method
-            _queue(mgr, ['ins_param'], f'r{_k}')
+            if not (quiet and _k == pub_failures - 1):
+                _queue(mgr, ['ins_param'], f'r{_k}')
         if pub_failures and mgr.pub_dao.n_tries != pub_failures:
             problems.append(f'n_tries == {mgr.pub_dao.n_tries} after {pub_failures} failed public writes')
         mgr.process_queued_ops()
@@ -161,6 +163,54 @@ def _one(ops, fail_at, pub_failures):
         return problems
     finally:
         shutil.rmtree(tmp, ignore_errors=True)
+
+
+def _fail_pub_once(mgr, problems):
+    _inject(mgr.pub_dao, 0)
+    try:
+        mgr.process_queued_ops()
+    except sqlite3.Error:
+        problems.append('a failed public write raised')
+    del mgr.pub_dao.connect
+
+
+def _directed(kind):
+    """two histories in which batches that failed on the public database meet later operations:
+    'recover'  a batch fails until the recovery threshold, the public file is re-copied from the private one,
+               then the next (quiet) write happens - the re-copied file must not get the old batch again;
+    'merge'    batch 1 inserts a row, batch 2 deletes it; both fail on the public database and are retried
+               together - the public database must end up without the row, like the private one."""
+    tmp = tempfile.mkdtemp(prefix='verif_c21_', dir='/var/tmp')
+    problems = []
+    try:
+        mgr = _fresh_mgr(tmp)
+        pri, pub = mgr.pri_dao.db_file_name, mgr.pub_dao.db_file_name
+        if kind == 'recover':
+            mgr.db_inserts_map[mgr.TABLE_TASKS_TO_HOLD].append({'name': 'late', 'cycle': '2'})
+            _fail_pub_once(mgr, problems)
+            mgr.pub_dao.n_tries = mgr.pub_dao.MAX_TRIES
+            mgr.recover_pub_from_pri()
+            mgr.process_queued_ops()          # an idle iteration after the recovery
+        else:
+            mgr.db_inserts_map[mgr.TABLE_TASKS_TO_HOLD].append({'name': 'r', 'cycle': '3'})
+            _fail_pub_once(mgr, problems)
+            mgr.db_deletes_map[mgr.TABLE_TASKS_TO_HOLD].append({'name': 'r', 'cycle': '3'})
+            _fail_pub_once(mgr, problems)
+            mgr.process_queued_ops()          # the retry of both batches
+        a, b = _dump(pri), _dump(pub)
+        if a != b:
+            problems.append(dict(public_differs_from_private={
+                t: dict(private=a[t], public=(b or {}).get(t)) for t in a if (b or {}).get(t) != a[t]}))
+        return problems
+    finally:
+        shutil.rmtree(tmp, ignore_errors=True)
+
+
+def kf_merged_retry_runs_deletes_before_inserts(witness, res):
+    """known finding: two batches that failed on the public database are retried as ONE batch in which every
+    DELETE of a table runs before every INSERT: 'insert r' (batch 1) then 'delete r' (batch 2) leaves r in
+    the public database only"""
+    return witness.get('directed') == 'merge'
 
 
 def check(tier='quick', seed=0):
@@ -185,13 +235,38 @@ def check(tier='quick', seed=0):
                 bad.append(dict(batch=list(ops), failed_public_writes=pub_failures, problems=problems))
             if len(samples) < 3 and not problems:
                 samples.append(dict(batch=list(ops), failed_public_writes=pub_failures))
+            if pub_failures:
+                # the same with an idle workflow: the retry must happen although nothing new was queued
+                n_eval += 1
+                problems = _one(ops, None, pub_failures, quiet=True)
+                distinct.add((ops, 'pub-quiet', pub_failures))
+                if problems and len(bad) < 8:
+                    bad.append(dict(batch=list(ops), failed_public_writes=pub_failures,
+                                    nothing_queued_before_the_retry=True, problems=problems))
     name = ('bounded::a failed private batch leaves the private database at the previous committed state; the '
             'public database retries and converges to the private one')
     rule = (f'{len(batches)} batches of <= {nmax} insert/update/delete operations over three tables x every '
             'failure position among the first statements and at commit (private); every 7th batch x 0/1/3 failed '
-            'public writes + recovery at the threshold; real SQLite files; distinct = distinct (batch, fault) pairs')
+            'public writes (with and without new operations queued before the retry) + recovery at the threshold; '
+            'real SQLite files; distinct = distinct (batch, fault) pairs')
     base = dict(name=name, kind='bounded', evaluations=n_eval, distinct=len(distinct), rule=rule,
                 samples=samples or [dict(batch=list(batches[0]), failed_public_writes=0)])
+    # directed histories (a second result: one of them is a listed finding)
+    dbad = []
+    for kind in ('recover', 'merge'):
+        problems = _directed(kind)
+        if problems:
+            dbad.append(dict(directed=kind, problems=problems))
+    second = dict(name='bounded::failed public batches retried together with later operations, or after the '
+                       'recovery from the private database, leave the public database equal to the private one',
+                  kind='bounded', evaluations=2, distinct=2, exhaustive=False,
+                  rule='2 directed histories on real SQLite files: (recover) a batch fails on the public database '
+                       'up to the recovery threshold, recover_pub_from_pri, one idle write; (merge) batch 1 '
+                       'inserts a row, batch 2 deletes it, both fail on the public database and are retried '
+                       'together',
+                  samples=[dict(directed='recover'), dict(directed='merge')])
+    second.update(dict(verdict='refuted', witness=dbad, detail=f'{len(dbad)} of 2 histories diverge') if dbad
+                  else dict(verdict='proved', detail='2 histories'))
     if bad:
-        return [dict(base, verdict='refuted', witness=bad, detail=f'{len(bad)} cases break the contract')]
-    return [dict(base, verdict='proved', detail=f'{n_eval} (batch, fault) cases')]
+        return [dict(base, verdict='refuted', witness=bad, detail=f'{len(bad)} cases break the contract'), second]
+    return [dict(base, verdict='proved', detail=f'{n_eval} (batch, fault) cases'), second]
